@@ -14,7 +14,7 @@ The chain, link by link:
   `posterior_grid.to_probabilities()`; maximization passes no variance; `get_modified_ts` hands
   `result.posterior_mean/var` to the node table and `result.mutation_mean/var` to the mutation table
   and `_time_md_array` stores them under `mn` / `vr`.
-* `metadata_rows_eq`, `node_metadata_eq`, `mutation_metadata_eq`: in the executable model, whenever
+* `metadata_rows_eq`, `node_metadata_eq`, `mutation_metadata_eq`, `mutation_metadata_eq_any_phase`: in the executable model, whenever
   metadata is written, decoding row i gives exactly `(mean[i], var[i])` — for mutations matched by
   the mutation's identity (site, node, derived state), because `sort` may permute rows in a site.
 * `maximization_writes_none`: no variance ⇒ nothing written, node rows and schema untouched.
@@ -219,6 +219,68 @@ theorem mutation_metadata_eq (E : Env α) (hC : CodecRoundTrips E.codec)
   rw [hcol]
   simp only [putMutMd]
   rw [key, hsome]
+
+/-- **The same without any assumption on `mutation_node`** (so also for unphased singletons, whose
+node is switched): the multiset of ((site, node, derived state), (mn, vr)) of the output is the input's
+mutations, each carrying the node `result.mutation_node[i]` assigns to it and the pair
+`(mutation_mean[i], mutation_var[i])` — the three arrays `mutation_mapping()` / `mutation_posteriors()`
+expose, zipped in input order. -/
+theorem mutation_metadata_eq_any_phase (E : Env α) (hC : CodecRoundTrips E.codec)
+    (hsort : ∀ t, SortRel t (E.sort t)) (htimes : ∀ t, TimesRel t (E.computeTimes t)) (o : Options)
+    (t0 : TableCollection α) (r : Results α) (mean var : List α) (hmean : r.mutationMean = some mean)
+    (hvar : r.mutationVar = some var)
+    (out : TableCollection α) (tr : Trace) (h : getModifiedTs E o t0 r = some (out, tr))
+    (hw : tr.mutMd = .written ∨ tr.mutMd = .replaced) :
+    (out.mutations.map (fun m => (m.key1, E.codec.readMnVr out.mutationsSchema m.metadata))).Perm
+      (List.zipWith (fun (mn : MutRow α × Nat) v => ((mn.1.site, mn.2, mn.1.derivedState), some v))
+        (t0.mutations.zip r.mutationNode) (mean.zip var)) := by
+  obtain ⟨t3, t5, t8, h3, h5, h8, rfl⟩ := getModifiedTs_some h
+  have hsch : (stageProv E o t8).mutationsSchema = t3.mutationsSchema := by
+    rw [(stageProv_fields E o t8).1, (stageTskit_fields hsort htimes h8).1, (stageCols_fields h5).1]
+  rw [hsch, (stageProv_frame E o t8).2]
+  have hk : KeyOK (fun m : MutRow α => (m.key1, E.codec.readMnVr t3.mutationsSchema m.metadata)) :=
+    ⟨fun x => ((x.1, x.2.1, x.2.2.1), E.codec.readMnVr t3.mutationsSchema x.2.2.2), fun _ => rfl⟩
+  refine (stageTskit_key _ hk hsort htimes h8).trans ?_
+  -- the column stage
+  unfold stageCols at h5
+  simp only [Option.bind_eq_some_iff] at h5
+  obtain ⟨ns, hns, ms, hms, h5⟩ := h5
+  obtain ⟨lm, rfl⟩ := setCol?_some _ _ _ _ hms
+  simp only [Option.some.injEq] at h5
+  subst h5
+  show (List.map _ (List.map _ (setCol MutRow.setNode t3.mutations r.mutationNode))).Perm _
+  rw [List.map_map]
+  have hz : ∀ (rows : List (MutRow α)) (vals : List Nat),
+      List.map ((fun m : MutRow α => (m.key1, E.codec.readMnVr t3.mutationsSchema m.metadata)) ∘
+        fun row => (row.setTime E.unknownTime).setParent (-1)) (setCol MutRow.setNode rows vals) =
+      List.zipWith (fun (m' : MutRow α) n => ((m'.site, n, m'.derivedState),
+        E.codec.readMnVr t3.mutationsSchema m'.metadata)) rows vals := by
+    intro rows vals
+    induction rows generalizing vals with
+    | nil => simp [setCol]
+    | cons x xs ih =>
+      cases vals with
+      | nil => simp [setCol]
+      | cons v vs =>
+        simp only [setCol, List.zipWith_cons_cons, List.map_cons]
+        rw [show List.zipWith MutRow.setNode xs vs = setCol MutRow.setNode xs vs from rfl, ih vs]
+        rfl
+  rw [hz]
+  -- the metadata stage
+  unfold stageMd at h3
+  simp only at h3
+  split_ifs at h3 with h1 h2
+  simp only [Option.some.injEq, Prod.mk.injEq] at h3
+  obtain ⟨rfl, rfl⟩ := h3
+  simp only at hw
+  rw [hvar, hmean] at hw
+  simp only [Option.getD_some] at hw
+  have key := metadata_rows_eq E.codec hC o.setMetadata E.mutDefaultSchema _ mean var hw
+  simp only at key
+  rw [hvar, hmean]
+  simp only [Option.getD_some, putMutMd]
+  rw [zip3_lemma _ _ _ _ _ key]
+  exact List.Perm.refl _
 
 end Md
 
